@@ -1,5 +1,5 @@
 /*VERIF
-{ "tu": "src/queue.c", "enforce": "_dispatch_lane_resume", "props": ["C06","C01","C17","C04"], "nondet_volatile": true, "timeout": 200,
+{ "tu": "src/queue.c", "enforce": "_dispatch_lane_resume", "props": ["C06","C01","C17","C04","C10"], "nondet_volatile": true, "timeout": 200,
   "stub_note": "_dispatch_lane_resume_slow, _dispatch_lane_resume_activate, dx_wakeup, release_2: logged calls" }
 VERIF*/
 #ifdef VERIF_PRE
